@@ -106,7 +106,7 @@ func TestExec(t *testing.T) {
 				row.CancelErr = err.Error()
 			}
 		}
-		row.Reported = r.waitDone(job.ID, 15*time.Second)
+		row.Reported = r.waitDone(job.ID, 60*time.Second)
 		// let a dependent task that was (wrongly) started get to its output
 		time.Sleep(30 * time.Millisecond)
 		_ = r.pr.ReadJob(job.ID, func(j *prunner.PipelineJob) {
